@@ -28,11 +28,14 @@ def sentence(rnd, lo=60, hi=220):
     n = rnd.randint(lo, hi)
     out = []
     ln = 0
+    # one text in three is spaced irregularly: tabs, runs of spaces (code is: indentation, alignment, tab-separated data)
+    seps = (' ',) if rnd.random() < 0.67 else (' ', ' ', '  ', '   ', '\t', ' \t', '\t ')
     while ln < n:
         w = rnd.choice(WORDS)
         out.append(w)
+        out.append(rnd.choice(seps))
         ln += len(w) + 1
-    return ' '.join(out)
+    return ''.join(out[:-1])
 
 
 def text(rnd, multiline_ok=True):
